@@ -51,6 +51,23 @@ def fromNested (shape : List Nat) (flat : List Ext) (next : Nat) : PT :=
     { physical := flat, paxes := shape.zipIdx.map (fun (p : Nat × Nat) => (next + p.2, p.1)),
       vaxes := shape.zipIdx.map (fun (p : Nat × Nat) => Axis.phys (next + p.2) p.1), default := Ext.fin 0 }
 
+/-! ### `default_to` and `clone` -/
+
+/-- `t.default_to(d)`: the tensor itself if it has that default already (NaN counts as equal to NaN), otherwise the DENSE
+tensor `PatternedTensor(self.to_dense(), default=d)` — this is how `einsum` and `solve` bring their operands to the
+semiring zero as default -/
+def defaultTo (t : PT) (d : Ext) (next : Nat) : PT :=
+  if Sh.sameDefault t.default d then t
+  else
+    Bn.normalize
+      { physical := t.dense, paxes := t.vshape.zipIdx.map (fun (p : Nat × Nat) => (next + p.2, p.1)),
+        vaxes := t.vshape.zipIdx.map (fun (p : Nat × Nat) => Axis.phys (next + p.2) p.1), default := d }
+
+/-- `t.clone()` / `t.freshen()` / `copy_`'s re-patterning: the physical axes are replaced by fresh ones, in order -/
+def cloneT (t : PT) (next : Nat) : PT :=
+  let ren := t.paxes.zipIdx.map (fun (p : (Nat × Nat) × Nat) => (p.1.1, next + p.2))
+  { t with paxes := t.paxes.map (fun k => ((ren.lookup k.1).getD k.1, k.2)), vaxes := Ps.renameList ren t.vaxes }
+
 /-! ### protocol -/
 
 partial def parseSpec : Parser AxisSpec := do
@@ -69,6 +86,14 @@ def handle : List String → Option (Except String String)
       match fromSpec ps ph ex vs d next with
       | none => pure "raises"
       | some r => pure s!"ok {Bn.showPT r} {showBool r.wf} {showList toString r.vshape} {showList toString r.dense}"
+  | "C06.defaultTo" :: rest => some do
+      let (t, d, next) ← Tok.run (do let t ← parsePT; let d ← Tok.ext; let n ← Tok.nat; pure (t, d, n)) rest
+      let r := defaultTo t d next
+      pure ("ok " ++ Bn.showPT r ++ " " ++ showBool r.wf)
+  | "C06.clone" :: rest => some do
+      let (t, next) ← Tok.run (do let t ← parsePT; let n ← Tok.nat; pure (t, n)) rest
+      let r := cloneT t next
+      pure ("ok " ++ Bn.showPT r ++ " " ++ showBool r.wf)
   | "C14.roundtrip" :: rest => some do
       let (t, next) ← Tok.run (do let t ← parsePT; let n ← Tok.nat; pure (t, n)) rest
       match It.tolist 16 t next with
